@@ -613,3 +613,29 @@ def e2_todelta_far_years(ctx):
     funcs=[D + ':AbstractDateTime.todelta', H + ':days_from_common_era', 'calendar.isleap'])
 def e2_todelta_bce(ctx):
     return _todelta_obligation('bce')
+
+
+# --- added after round-2 seeded changes: the 29th of February exists exactly in leap years, also beyond year 9999 and BCE ------------
+
+@ob(budget=120, bound='year in [10000, 2.7e6] or [-2.7e6, -1] (XSD 1.1 numbering): DateTime/Date(year, 2, 29) is accepted iff the proleptic Gregorian year is leap; day 30 never',
+    funcs=[D + ':AbstractDateTime.__init__'])
+def leap_day_far_years(year: int) -> bool:
+    """
+    pre: (10000 <= year <= 2700000) or (-2700000 <= year <= -1)
+    post: _
+    """
+    leap = _is_leap(_astro(year))
+    for cls in (DateTime, Date):
+        try:
+            v = cls(year, 2, 29)
+            ok = v.day == 29 and v.month == 2 and v.year == year
+        except ValueError:
+            ok = None
+        if (ok is True) != leap or ok is False:
+            return False
+        try:
+            cls(year, 2, 30)
+            return False
+        except ValueError:
+            pass
+    return True
